@@ -218,6 +218,7 @@ func registerEnvIntrinsics(I map[string]Intrinsic) {
 	redirect("(*"+gw+".Conn).ReadMessage", "ConnReadMessage")
 	redirect("(*"+gw+".Conn).NextReader", "ConnNextReader")
 	redirect("(*"+gw+".Conn).WriteMessage", "ConnWriteMessage")
+	redirect("(*"+gw+".Conn).WriteControl", "ConnWriteControl")
 	redirect("(*"+gw+".Conn).SetReadLimit", "ConnSetReadLimit")
 	redirect("(*"+gw+".Conn).Close", "ConnClose")
 	redirect("(*"+gw+".Conn).LocalAddr", "ConnLocalAddr")
